@@ -57,5 +57,17 @@ PROPS["C12"] = {
             "read_data(write_data(x)) == x assumed from pickle; single-heap lemmas with a fresh rebuilt object.",
     "undecided": ["serializer round trip for all values (bounded exhaustive only)", "ScopeInfo.__getstate__/__setstate__ (bounded only)"],
 }
+PROPS["C16"] = {
+    "sidecars": ["c16_bytes.py", "c16_decode.py"],
+    "level": "proof",
+    "claim": "Proof level for the codec/newline selection logic: unicode_to_file_data writes the text with the file's newline convention in the declared "
+             "(cookie) encoding, else UTF-8, and reports (never silently replaces) a codec that cannot represent the text; _decode_data uses the declared or "
+             "default codec whenever it accepts the bytes, latin-1 only as fallback, and never raises; file_data_to_unicode returns LF-only text and leaves a "
+             "CR-free text unchanged -- for all texts, over uninterpreted codecs.  Byte-for-byte round trips on real files and cookie detection are "
+             "exhaustive bounded stand-ins.",
+    "note": "codecs (encode/decode) and str.replace are external: uninterpreted functions with the listed axioms (latin-1 total, replace removes every "
+            "occurrence, replace of an absent substring is the identity); read_str_coding's agreement with the PEP 263 pattern is bounded only.",
+    "undecided": ["codec round trip decode(encode(t)) == t", "separator lemma for str.replace chains (bounded only)"],
+}
 _NB = "check not built yet (framework under construction; see DESIGN.md section 8)"
 NOT_APPLICABLE = {"C%02d" % i: _NB for i in range(1, 21)}
